@@ -116,4 +116,265 @@ theorem gen_assemble (toks : List Spec.Tok) (h : ∀ t ∈ toks, C02.WFTok C02.g
   obtain ⟨bs, h1, h2⟩ := C02.assemble C02.genTables C02.tables_ok toks h
   exact ⟨bs, by rw [← h1]; exact gen_script_to_bytes C02.genTables toks, h2⟩
 
+/-! ### `Script.from_raw` as generated code
+
+The disassembly loop (`while index < len(scriptraw)`, translated with the iteration bound `len + 1`: every iteration advances
+the index by at least one byte) never exhausts its bound, never raises, and returns exactly the token list of the model's
+structural recursion `Model.scriptFromRaw`. -/
+
+/-- `vi_to_int` on a non-empty window is the model's `viToInt` -/
+theorem vi_to_int_eq (b : UInt8) (rest : Bytes) :
+    Gen.vi_to_int (b :: rest) = .ok (((viToInt (b :: rest)).1 : Int), ((viToInt (b :: rest)).2 : Int)) := by
+  unfold Gen.vi_to_int viToInt
+  have hb := b.toNat_lt
+  rw [index_cons_zero]
+  simp only [Bool.not_true, Bool.false_eq_true, ↓reduceIte]
+  rw [ok_bind]
+  by_cases h1 : b.toNat < 253
+  · have a : decide ((b.toNat : Int) < 253) = true := by simp only [decide_eq_true_eq]; omega
+    simp [a, h1, pure_eq_ok]
+  · have a : decide ((b.toNat : Int) < 253) = false := by simp only [decide_eq_false_iff_not]; omega
+    simp only [a, Bool.false_eq_true, if_false, h1]
+    by_cases h2 : b.toNat = 253
+    · simp [h2, slice, fromBytes, ofBE, pure_eq_ok]
+    · by_cases h3 : b.toNat = 254
+      · simp [h3, slice, fromBytes, ofBE, pure_eq_ok]
+      · have e2 : ((b.toNat : Int) == 253) = false := by simp only [beq_eq_false_iff_ne, ne_eq]; omega
+        have e3 : ((b.toNat : Int) == 254) = false := by simp only [beq_eq_false_iff_ne, ne_eq]; omega
+        simp [h2, h3, e2, e3, slice, fromBytes, ofBE, pure_eq_ok]
+
+abbrev S6 := Int × Int × Int × Int × List Py.PyTok × Int
+abbrev M6 := Int × Int × Int × Int × List Py.PyTok × Nat
+abbrev enc6 (s : M6) : S6 := (s.1, s.2.1, s.2.2.1, s.2.2.2.1, s.2.2.2.2.1, (s.2.2.2.2.2 : Int))
+
+/-- one iteration of the disassembly loop on (byte, data_size, size, bytes_to_read, commands, index) -/
+def stepRaw (T : Tables) (bs : Bytes) (s : M6) : M6 :=
+  let i := s.2.2.2.2.2
+  let cmds := s.2.2.2.2.1
+  let b := bs.getD i 0
+  match T.codeOps.lookup [b] with
+  | some name =>
+    let cmds1 := if b ≠ 0x4c ∧ b ≠ 0x4d ∧ b ≠ 0x4e then cmds ++ [Py.PyTok.name name] else cmds
+    if b = 0x4c then
+      let n := ofLE ((bs.drop (i + 1)).take 1)
+      ((b.toNat : Int), s.2.1, s.2.2.1, (n : Int), cmds1 ++ [Py.PyTok.data ((bs.drop (i + 1 + 1)).take n)], i + 1 + 1 + n)
+    else if b = 0x4d then
+      let n := ofLE ((bs.drop (i + 1)).take 2)
+      ((b.toNat : Int), s.2.1, s.2.2.1, (n : Int), cmds1 ++ [Py.PyTok.data ((bs.drop (i + 1 + 2)).take n)], i + 1 + 2 + n)
+    else if b = 0x4e then
+      let n := ofLE ((bs.drop (i + 1)).take 4)
+      ((b.toNat : Int), s.2.1, s.2.2.1, (n : Int), cmds1 ++ [Py.PyTok.data ((bs.drop (i + 1 + 4)).take n)], i + 1 + 4 + n)
+    else ((b.toNat : Int), s.2.1, s.2.2.1, s.2.2.2.1, cmds1, i + 1)
+  | none =>
+    let r := viToInt ((bs.drop i).take 8)
+    ((b.toNat : Int), (r.1 : Int), (r.2 : Int), s.2.2.2.1, cmds ++ [Py.PyTok.data ((bs.drop (i + r.2)).take r.1)], i + r.1 + r.2)
+
+theorem slice_nat (bs : Bytes) (a k : Nat) : slice bs (a : Int) ((a : Int) + (k : Int)) = (bs.drop a).take k := by
+  unfold slice
+  have e1 : ((a : Int)).toNat = a := Int.toNat_natCast a
+  have e2 : ((a : Int) + (k : Int)).toNat - ((a : Int)).toNat = k := by omega
+  rw [e2, e1]
+
+theorem index_nat (bs : Bytes) (i : Nat) (h : i < bs.length) : Py.index bs (i : Int) = .ok (((bs.getD i 0).toNat : Nat) : Int) := by
+  unfold Py.index
+  rw [if_neg (by omega), Int.toNat_natCast]
+  simp [List.getD, h]
+
+theorem drop_getD (bs : Bytes) (i : Nat) (h : i < bs.length) : bs.drop i = bs.getD i 0 :: bs.drop (i + 1) := by
+  rw [List.drop_eq_getElem_cons h]
+  simp [List.getD, h]
+
+theorem boi (b : UInt8) : Py.bytesOfInts [((b.toNat : Nat) : Int)] = .ok [b] := by
+  unfold Py.bytesOfInts
+  have hb := b.toNat_lt
+  have hc : (0 ≤ ((b.toNat : Nat) : Int) ∧ ((b.toNat : Nat) : Int) < 256) := by omega
+  simp only [List.mapM_cons, List.mapM_nil, if_pos hc, Int.toNat_natCast]
+  show Except.ok [UInt8.ofNat b.toNat] = _
+  simp
+
+theorem gen_from_raw_loop (T : Tables) (bs : Bytes) (seg : Bool) :
+    Gen.script_from_raw T.codeOps bs seg =
+      .ok (whileFuel (fun (s : M6) => decide (s.2.2.2.2.2 < bs.length)) (stepRaw T bs) (bs.length + 1) (0, 0, 0, 0, [], 0)).2.2.2.2.1 := by
+  unfold Gen.script_from_raw
+  simp only []
+  refine Eq.trans (congrArg (· >>= _) (forIn_range_while enc6 (fun (s : M6) => decide (s.2.2.2.2.2 < bs.length)) (stepRaw T bs) _
+    (bs.length + 1) (fun s => bs.length - s.2.2.2.2.2) ?hstop ?hgo ?hdec (0, 0, 0, 0, [], 0) ?hN)) ?fin
+  case hN => show bs.length - 0 < bs.length + 1; omega
+  case fin => rfl
+  case hdec =>
+    intro s hc
+    have hlt : s.2.2.2.2.2 < bs.length := by simpa using hc
+    have hstep : s.2.2.2.2.2 + 1 ≤ (stepRaw T bs s).2.2.2.2.2 := by
+      unfold stepRaw
+      simp only []
+      split
+      · split
+        · simp only []; omega
+        · split
+          · simp only []; omega
+          · split
+            · simp only []; omega
+            · simp only []; omega
+      · have := viToInt_snd_pos ((bs.drop s.2.2.2.2.2).take 8)
+        simp only []; omega
+    show bs.length - (stepRaw T bs s).2.2.2.2.2 < bs.length - s.2.2.2.2.2
+    omega
+  case hstop =>
+    intro i s hc
+    have hlt : ¬ (s.2.2.2.2.2 < bs.length) := by simpa using hc
+    have hh : (!decide (((s.2.2.2.2.2 : Nat) : Int) < Py.len bs)) = true := by
+      unfold Py.len
+      simp only [Bool.not_eq_true', decide_eq_false_iff_not]; omega
+    simp only [enc6]
+    rw [if_pos hh]
+    rfl
+  case hgo =>
+    intro i s hi hc
+    have hlt : s.2.2.2.2.2 < bs.length := by simpa using hc
+    simp only [enc6]
+    split
+    · rename_i hn
+      exfalso
+      unfold Py.len at hn
+      simp only [Bool.not_eq_true', decide_eq_false_iff_not] at hn; omega
+    · split
+      · rename_i h2; simp only [beq_iff_eq] at h2; omega
+      · rw [index_nat bs _ hlt, ok_bind, boi, ok_bind]
+        have hdrop := drop_getD bs _ hlt
+        unfold stepRaw
+        simp only []
+        generalize bs.getD s.2.2.2.2.2 0 = b at *
+        cases hl : T.codeOps.lookup [b] with
+        | none =>
+          have hin : inTableB T.codeOps [b] = false := by simp [inTableB, hl]
+          simp only [hin, Bool.false_eq_true, if_false]
+          rw [show (8 : Int) = ((8 : Nat) : Int) from rfl, slice_nat, hdrop]
+          rw [show (b :: bs.drop (s.2.2.2.2.2 + 1)).take 8 = b :: (bs.drop (s.2.2.2.2.2 + 1)).take 7 from rfl, vi_to_int_eq, ok_bind]
+          simp only []
+          rw [← Int.natCast_add, slice_nat]
+          have e : ((s.2.2.2.2.2 : Int) + ((viToInt (b :: List.take 7 (List.drop (s.2.2.2.2.2 + 1) bs))).1 : Int)
+              + ((viToInt (b :: List.take 7 (List.drop (s.2.2.2.2.2 + 1) bs))).2 : Int)) =
+              ((s.2.2.2.2.2 + (viToInt (b :: List.take 7 (List.drop (s.2.2.2.2.2 + 1) bs))).1
+                + (viToInt (b :: List.take 7 (List.drop (s.2.2.2.2.2 + 1) bs))).2 : Nat) : Int) := by omega
+          rw [e]
+          rfl
+        | some name =>
+          have hin : inTableB T.codeOps [b] = true := by simp [inTableB, hl]
+          have hlk : lookupB T.codeOps [b] = .ok name := by simp [lookupB, hl]
+          simp only [hin, if_true, ok_bind]
+          have e1 : ((1 : Int)) = ((1 : Nat) : Int) := rfl
+          have e2 : ((2 : Int)) = ((2 : Nat) : Int) := rfl
+          have e4 : ((4 : Int)) = ((4 : Nat) : Int) := rfl
+          by_cases h4c : b = 0x4c
+          · subst h4c
+            simp only [show (([0x4c] : Bytes) != [76]) = false from rfl, Bool.false_eq_true, if_false, pure, Except.pure, ok_bind,
+              show (([0x4c] : Bytes) == [76]) = true from rfl, if_true]
+            rw [e1, ← Int.natCast_add, slice_nat, fromBytes]
+            rw [← Int.natCast_add, slice_nat, ← Int.natCast_add]
+            simp
+          · by_cases h4d : b = 0x4d
+            · subst h4d
+              simp only [show (([0x4d] : Bytes) != [76]) = true from rfl, show (([0x4d] : Bytes) != [77]) = false from rfl,
+                Bool.false_eq_true, if_false, if_true, pure, Except.pure, ok_bind,
+                show (([0x4d] : Bytes) == [76]) = false from rfl, show (([0x4d] : Bytes) == [77]) = true from rfl]
+              rw [e1, e2, ← Int.natCast_add, slice_nat, fromBytes]
+              rw [← Int.natCast_add, slice_nat, ← Int.natCast_add]
+              simp
+            · by_cases h4e : b = 0x4e
+              · subst h4e
+                simp only [show (([0x4e] : Bytes) != [76]) = true from rfl, show (([0x4e] : Bytes) != [77]) = true from rfl,
+                  show (([0x4e] : Bytes) != [78]) = false from rfl,
+                  Bool.false_eq_true, if_false, if_true, pure, Except.pure, ok_bind,
+                  show (([0x4e] : Bytes) == [76]) = false from rfl, show (([0x4e] : Bytes) == [77]) = false from rfl,
+                  show (([0x4e] : Bytes) == [78]) = true from rfl]
+                rw [e1, e4, ← Int.natCast_add, slice_nat, fromBytes]
+                rw [← Int.natCast_add, slice_nat, ← Int.natCast_add]
+                simp
+              · have n1 : (([b] : Bytes) != [76]) = true := by simp [h4c]
+                have n2 : (([b] : Bytes) != [77]) = true := by simp [h4d]
+                have n3 : (([b] : Bytes) != [78]) = true := by simp [h4e]
+                have m1 : (([b] : Bytes) == [76]) = false := by simp [h4c]
+                have m2 : (([b] : Bytes) == [77]) = false := by simp [h4d]
+                have m3 : (([b] : Bytes) == [78]) = false := by simp [h4e]
+                simp only [n1, n2, n3, m1, m2, m3, if_true, Bool.false_eq_true, if_false, pure, Except.pure, ok_bind, hlk]
+                simp [h4c, h4d, h4e]
+
+theorem stepRaw_adv (T : Tables) (bs : Bytes) (s : M6) : s.2.2.2.2.2 + 1 ≤ (stepRaw T bs s).2.2.2.2.2 := by
+  unfold stepRaw
+  simp only []
+  split
+  · split
+    · simp only []; omega
+    · split
+      · simp only []; omega
+      · split
+        · simp only []; omega
+        · simp only []; omega
+  · have := viToInt_snd_pos ((bs.drop s.2.2.2.2.2).take 8)
+    simp only []; omega
+
+/-- one step of the loop consumes exactly the tokens the model's recursion produces first -/
+theorem stepRaw_model (T : Tables) (bs : Bytes) (seg : Bool) (s : M6) (hlt : s.2.2.2.2.2 < bs.length) :
+    (stepRaw T bs s).2.2.2.2.1 ++ (scriptFromRaw T seg (bs.drop (stepRaw T bs s).2.2.2.2.2)).map toPy =
+      s.2.2.2.2.1 ++ (scriptFromRaw T seg (bs.drop s.2.2.2.2.2)).map toPy := by
+  have hdrop := drop_getD bs _ hlt
+  rw [hdrop]
+  conv => rhs; rw [scriptFromRaw]
+  unfold stepRaw
+  simp only []
+  generalize bs.getD s.2.2.2.2.2 0 = b at *
+  cases hl : T.codeOps.lookup [b] with
+  | none =>
+    simp only [← hdrop, List.drop_drop, List.map_cons, toPy]
+    simp [List.append_assoc, Nat.add_comm, Nat.add_left_comm, Nat.add_assoc]
+  | some name =>
+    simp only []
+    by_cases h4c : b = 0x4c
+    · subst h4c
+      simp [List.drop_drop, toPy, Nat.add_comm, Nat.add_left_comm, Nat.add_assoc]
+      congr 3; omega
+    · by_cases h4d : b = 0x4d
+      · subst h4d
+        simp [List.drop_drop, toPy, Nat.add_comm, Nat.add_left_comm, Nat.add_assoc]
+        congr 3; omega
+      · by_cases h4e : b = 0x4e
+        · subst h4e
+          simp [List.drop_drop, toPy, Nat.add_comm, Nat.add_left_comm, Nat.add_assoc]
+          congr 3; omega
+        · simp [h4c, h4d, h4e, toPy]
+
+theorem whileFuel_raw (T : Tables) (bs : Bytes) (seg : Bool) (fuel : Nat) (s : M6) (hf : bs.length - s.2.2.2.2.2 < fuel) :
+    (whileFuel (fun (s : M6) => decide (s.2.2.2.2.2 < bs.length)) (stepRaw T bs) fuel s).2.2.2.2.1 =
+      s.2.2.2.2.1 ++ (scriptFromRaw T seg (bs.drop s.2.2.2.2.2)).map toPy := by
+  induction fuel generalizing s with
+  | zero => omega
+  | succ f ih =>
+    rw [whileFuel]
+    by_cases hlt : s.2.2.2.2.2 < bs.length
+    · simp only [hlt, decide_true, if_true]
+      have hadv := stepRaw_adv T bs s
+      rw [ih (stepRaw T bs s) (by omega), stepRaw_model T bs seg s hlt]
+    · simp only [hlt, decide_false, Bool.false_eq_true, if_false]
+      rw [List.drop_eq_nil_of_le (by omega), scriptFromRaw]
+      simp
+
+/-- **disassembly**: the translated `Script.from_raw` is the model's, on every byte string and table (never raises) -/
+theorem gen_script_from_raw (T : Tables) (bs : Bytes) (seg : Bool) :
+    Gen.script_from_raw T.codeOps bs seg = .ok ((scriptFromRaw T seg bs).map toPy) := by
+  rw [gen_from_raw_loop, whileFuel_raw T bs seg (bs.length + 1) (0, 0, 0, 0, [], 0) (by show bs.length - 0 < bs.length + 1; omega)]
+  simp
+
+/-- **round trip, end to end**: for well-formed tokens, disassembling (translated `from_raw`) what the translated `to_bytes`
+assembled renders every token (opcodes by name, every push as exactly its data), and assembling that again gives the same bytes -/
+theorem gen_roundtrip (toks : List Spec.Tok) (h : ∀ t ∈ toks, C02.WFTok C02.genTables t = true) (seg : Bool) :
+    ∃ bs out, Gen.script_to_bytes Gen.OP_CODES (toks.map toPy) = .ok bs ∧
+      Gen.script_from_raw Gen.CODE_OPS bs seg = .ok (out.map toPy) ∧
+      renders toks out = true ∧
+      Gen.script_to_bytes Gen.OP_CODES (out.map toPy) = .ok bs := by
+  obtain ⟨bs, h1, _, h3, h4⟩ := C02.assemble_disasm_reassemble_gen toks h seg
+  refine ⟨bs, scriptFromRaw C02.genTables seg bs, ?_, ?_, h3, ?_⟩
+  · rw [← h1]; exact gen_script_to_bytes C02.genTables toks
+  · exact gen_script_from_raw C02.genTables bs seg
+  · rw [← h4]; exact gen_script_to_bytes C02.genTables _
+
 end C02Gen
